@@ -6,7 +6,7 @@ CONSTANTS
   MinLen = 6
   MaxLen = 6
   Dialects = {"tpl", "xgo"}
-  CommentModes = {TRUE, FALSE}
+  CommentModes = {TRUE}
   InputMode = "chars"
   Gen = "sh:cmt"
 INVARIANTS TypeOK TokenBound OffsetsMonotone TextExact Partition Export
